@@ -126,15 +126,16 @@ type appWrite struct {
 }
 
 type world struct {
-	scn    Scn
-	b      *bucket.B
-	a      *inst.Inst
-	s      *sched.Sched
-	loop   *sched.Loop
-	writes []appWrite
-	staged []string
-	rseq   int
-	res    *runner.Result
+	scn       Scn
+	b         *bucket.B
+	a         *inst.Inst
+	s         *sched.Sched
+	loop      *sched.Loop
+	writes    []appWrite
+	staged    []string
+	rseq      int
+	ts0Staged int
+	res       *runner.Result
 }
 
 // commit performs an application transaction of the given kind.
@@ -194,6 +195,20 @@ func (w *world) stageRemoteKind(news, staleTomb bool) string {
 	// timestamp would win there: the no-news snapshot then has no entries at all.
 	if w.scn.Native {
 		d.Entries = append(d.Entries, wire.KV{Key: []byte("base1"), Val: []byte("stale-remote-value"), TS: 978307200000000000})
+	}
+	if w.rseq%2 == 1 {
+		// versions without a timestamp (field absent = 0) of keys that exist here since before the syncer started
+		// and that the application overwrites / deletes: they can never win, in either mode
+		ks := []string{"victim", "same"}
+		if w.scn.Native {
+			// (shadow mode: a deletion made before the first capture leaves no marker - documented start-up behaviour -
+			// so any remote version of victim2 is legitimately new there)
+			ks = append(ks, "victim2")
+		}
+		for _, k := range ks {
+			d.Entries = append(d.Entries, wire.KV{Key: []byte(k), Val: []byte("remote-without-timestamp"), TS: 0})
+		}
+		w.ts0Staged++
 	}
 	if news {
 		d.Entries = append(d.Entries, wire.KV{Key: []byte(fmt.Sprintf("rnew-%03d", w.rseq)), Val: []byte("remote"), TS: old})
@@ -610,6 +625,7 @@ func RunScn(scn Scn, env *runner.Env, res *runner.Result, which string) {
 		w.CheckCausality()
 	}
 	res.Count("scenarios_completed", 1)
+	res.Count("remote_snapshots_with_timestampless_versions", int64(w.ts0Staged))
 	if res.Sample == nil {
 		res.Sample = map[string]any{"scenario": scn, "app_writes": w.writes, "events": w.s.Len(), "stores": w.b.SuccessfulCount("Store"), "event_trace_tail": w.s.Tail(30)}
 	}
